@@ -188,6 +188,7 @@ var (
 	c11walkKeys     []string
 	c11walkLLVMok   map[string]bool // LLVM admits a string of its own choosing in the slot and keeps it
 	c11walkInert    []string        // slots whose content is not printed at all (name of a void result)
+	c11walkExisting map[string]bool // every string the base module already holds in some slot
 )
 
 func c11walkSet(text, key, s string) (m *ir.Module, ok bool) {
@@ -299,7 +300,13 @@ func c11walkInit() {
 		if err != nil {
 			fw.Fatalf("C11 walk: %v", err)
 		}
-		keys, _, _ := c11firstSlots(m)
+		keys, _, allVals := c11firstSlots(m)
+		c11walkExisting = map[string]bool{}
+		for _, vs := range allVals {
+			for _, v := range vs {
+				c11walkExisting[v] = true
+			}
+		}
 		for _, k := range keys {
 			if c11walkSkip[k] {
 				continue
@@ -392,6 +399,11 @@ var (
 // c11walkOne checks one (slot, byte string).
 func c11walkOne(c *fw.Check, key, str string) {
 	c11walkInit()
+	if c11walkExisting[str] && strings.HasSuffix(key, "Name") {
+		// an identifier the base module already uses (@G, %l): writing it into another entity of
+		// the same scope makes a duplicate definition, not a naming question.
+		return
+	}
 	base := c11base()
 	mu := &c11walkMu
 	type job struct{ key, s string }
